@@ -242,11 +242,32 @@ impl<W: Write> Session<W> {
         if !self.alive(s) {
             return false;
         }
-        let r = catch_unwind(AssertUnwindSafe(|| self.slots[s - 1].as_ref().unwrap().text()));
+        let r = catch_unwind(AssertUnwindSafe(|| {
+            let vt = self.slots[s - 1].as_ref().unwrap();
+            // ... and the real util::TextUnwrapper over lines(): every finished string, then the flush
+            let mut u = avt::util::TextUnwrapper::new();
+            let mut un: Vec<String> = Vec::new();
+            for l in vt.lines() {
+                if let Some(t) = u.push(l) {
+                    un.push(t);
+                }
+            }
+            if let Some(t) = u.flush() {
+                un.push(t);
+            }
+            (vt.text(), un)
+        }));
         match r {
-            Ok(t) => {
+            Ok((t, un)) => {
                 let _ = write!(self.buf, "{{\"ev\":\"text\",\"slot\":{},\"out\":[", s);
                 for (i, l) in t.iter().enumerate() {
+                    if i > 0 {
+                        self.buf.push(',');
+                    }
+                    obs::str_cps(&mut self.buf, l);
+                }
+                self.buf.push_str("],\"unwrap\":[");
+                for (i, l) in un.iter().enumerate() {
                     if i > 0 {
                         self.buf.push(',');
                     }
